@@ -559,8 +559,8 @@ func main() {
 		}
 	}
 	// every terminal call runs on a goroutine of its own while the harness
-	// goroutine waits: one or two Ps avoid waking idle threads a million times
-	procs := 2
+	// goroutine waits: a single P avoids waking idle threads a million times
+	procs := 1
 	if v, err := strconv.Atoi(os.Getenv("C06_PROCS")); err == nil && v > 0 {
 		procs = v
 	}
@@ -581,9 +581,18 @@ func main() {
 		for _, dev := range []bool{false, true} {
 			edev := dev || ck.forceDev
 			for _, hs := range hooks {
-				for _, der := range ders {
+				// thorough crosses the derivations; quick rotates them with the forms
+				derPasses := len(ders)
+				if !run.Thorough() {
+					derPasses = 1
+				}
+				for dp := 0; dp < derPasses; dp++ {
 					outer++
 					for fi, fm := range d.forms {
+						der := ders[dp]
+						if !run.Thorough() {
+							der = ders[(fi+outer)%len(ders)]
+						}
 						// the (entries-before, clock) combination rotates so that
 						// every form meets every combination across the outer
 						// dimensions and vice versa
@@ -646,6 +655,7 @@ func main() {
 	run.Assume = []string{
 		"zap's exit function is observed through internal/exit.Stub (the bridge): it records that exit was requested and the status, not how often; 'exactly once' is therefore checked for panics, Goexit and custom hooks, 'at least once and nothing else' for the stubbed exit (the real-process part observes the actual exit status)",
 		"the custom hook of the alphabet records and returns; hooks that themselves misbehave are outside the statement",
+		"histories: per case one logger sees (ordinary entries, terminal call) x 3; what reached a sink during an occurrence's call must consist of complete lines ending with that occurrence's line (earlier buffered entries may be flushed along), so state kept in a core between entries is exercised; histories are bounded at 3 terminal calls and at most 2 ordinary entries before each, with the five listed clock behaviours; forward clock jumps that would reset the sampler window are not in the alphabet",
 		"failing sinks: nothing is demanded of the failing sink's own content; a report on ErrorOutput is demanded only where the sink's Write itself fails on the entry (a BufferedWriteSyncer surfaces the failure at the flush inside Sync, whose error the IO core documents it ignores)",
 		"preset constructors (NewProduction/NewDevelopment/NewExample) write to stderr/stdout, pointed at a scratch file while the logger is built; their file is inspected after the call returns/unwinds rather than at the instant of the action (the recording-sink kinds and the real-process part cover the ordering)",
 		"sinks of cores that do not accept the level, and of sampled-out entries, are not constrained (only 'no Write after the terminal action began')",
@@ -655,7 +665,7 @@ func main() {
 	run.Finish(map[string]any{
 		"evaluations":                       evals,
 		"distinct_nontrivial":               len(distinct),
-		"rule":                              "in-process: four groups of logger kinds (healthy core compositions; cores with failing sinks - Write failing always / from the k-th write, tees in both orders, buffered over a failing sink, failing Sync; loggers built by zap.Config over base x DisableStacktrace x DisableCaller x Level x Sampling with Development as the development dimension; the preset constructors NewProduction/NewDevelopment/NewExample), each as the full product kinds x development x hook settings (panic hook x fatal hook; quick pairs the i-th choices, thorough the full product) x logger derivations x call forms (front-end method x via x level x argument shape, including blank shapes: empty message, empty template, no arguments, and for the std-log bridge empty / white-space-only / padded text), every case run on the real code with the exit stubbed; real-process: sink family x front end x level in a re-executed child leaving through the real os.Exit / uncaught panic. distinct = distinct (kind group, front-end method, level+entry condition, governing hook choice, development, expected action, blank/non-blank message) classes plus distinct child configurations; every class asserts a terminal action (or its absence for DPanic outside development) and the sink state at that moment",
+		"rule":                              "every in-process case is a HISTORY on one logger/core: the terminal call is made 3 times on the same logger (the panic recovered / the stubbed exit returned from / the goroutine of a Goexit replaced in between), each time preceded by ordinary entries (none | info+error | info + a non-terminal production DPanic on a sibling logger sharing the core), under an injected clock (real time.Now stamps well within a second | identical | 1ns apart | 1ns backwards | 1h backwards); the terminal action and the sink state at the moment of the action (line in the underlying sink below any BufferedWriteSyncer - 256KiB/4096/16 byte buffers, 1h flush interval - and Sync after the last Write, the line carrying the time the clock returned for that very entry) are checked for EVERY occurrence; the (entries-before, clock) combination rotates over the cases so that each (kind group, level) meets all 15 combinations. Cases: in-process: four groups of logger kinds (healthy core compositions; cores with failing sinks - Write failing always / from the k-th write, tees in both orders, buffered over a failing sink, failing Sync; loggers built by zap.Config over base x DisableStacktrace x DisableCaller x Level x Sampling with Development as the development dimension; the preset constructors NewProduction/NewDevelopment/NewExample), each as the full product kinds x development x hook settings (panic hook x fatal hook; quick pairs the i-th choices, thorough the full product) x logger derivations (crossed in thorough, rotated with the call forms in quick) x call forms (front-end method x via x level x argument shape, including blank shapes: empty message, empty template, no arguments, and for the std-log bridge empty / white-space-only / padded text), every case run on the real code with the exit stubbed; real-process: sink family x front end x level in a re-executed child leaving through the real os.Exit / uncaught panic. distinct = distinct (kind group, front-end method, level+entry condition, governing hook choice, development, expected action, blank/non-blank message) classes plus distinct child configurations; every class asserts a terminal action (or its absence for DPanic outside development) and the sink state at that moment",
 		"samples":                           samples,
 		"exhaustive":                        true,
 		"inprocess_cases":                   inproc,
